@@ -1695,10 +1695,11 @@ def fe_isar(case):
         attrs = 'name="%s" type="%s"%s' % (m["nm"], _tname(m["t"]), (' optional="%s"' % spell) if m["opt"] else off)
         # (a fixed array may say isVariableSize="false" explicitly)
         dim = {"none": "", "size": ('<dimension size="%d"/>' if m["n"] % 2 else '<dimension size="%d" isVariableSize="false"/>') % m["n"],
-               "size2": '<dimension size="%d" size2="%d" isVariableSize="False"/>' % (m["n"], m["aux"]),
+               # both factors written as sums: the product must be of the two VALUES
+               "size2": '<dimension size="1+%d" size2="%d+1" isVariableSize="False"/>' % (m["n"] - 1, m["aux"] - 1),
                "var": '<dimension isVariableSize="true"/>',
                "varsize": '<dimension size="%d" isVariableSize="true"/>' % m["n"],
-               "varsize2": '<dimension size="%d" size2="%d" isVariableSize="true"/>' % (m["n"], m["aux"]),
+               "varsize2": '<dimension size="%d+1" size2="1+%d" isVariableSize="true"/>' % (m["n"] - 1, m["aux"] - 1),
                "varnamed": '<dimension isVariableSize="true" variableSizeFieldName="cnt_%s" variableSizeFieldType="u8"/>' % m["nm"],
                "at": '<dimension variableSizeFieldName="@f1"/>',
                "this": '<dimension size="THIS_IS_VARIABLE_SIZE_ARRAY"/>',
